@@ -2,15 +2,17 @@ import Hm.Request
 import Hm.Response
 
 /-! rhymessage `MessageHeaders::generate` *with* line folding (lib.rs `fold_header` and the loop of `generate`), for
-    header lines of ASCII text (for which `char_indices` are byte indices; a line with a byte ≥ 0x80 is answered
-    `unmodelled`).  `Headers.generate` of `Hm/Rhymessage` is the special case in which every line fits:
+    header lines of valid UTF-8 (a Rust `String` is nothing else; a line that is not is answered `unmodelled`).
+    `fold_header` walks `char_indices`; since the characters it looks for (SP, HT) are single bytes that never occur
+    inside a multi-byte sequence, the search over byte indices below finds the same split point:
+    `foldHeaderChars_eq` in `Hm/FoldChars` proves it against a transcription that does walk character starts.  `Headers.generate` of `Hm/Rhymessage` is the special case in which every line fits:
     `Headers.generateFold_of_generate`. -/
 
 inductive GenRes where
   | ok (b : Bytes)
   | couldNotBeFolded
   | panic                 -- `line_length_limit - 2` with a limit of 0 or 1 (known finding KF1: overflow checks on)
-  | unmodelled            -- a line that needs folding and is not ASCII
+  | unmodelled            -- a line that needs folding and is not valid UTF-8 (cannot be a Rust `String`)
 deriving Repr, DecidableEq
 
 /-- `fold_header(line, limit, skip)` on ASCII text: `none` = could not be folded -/
@@ -50,7 +52,7 @@ def Headers.generateFold (limit : Option Nat) (hs : List Header) : GenRes :=
           | .ok out =>
             let line := h.name ++ [COLON, SP] ++ h.value
             if line.length ≤ lim - 2 then .ok (out ++ line ++ CRLF)
-            else if !isAsciiBytes line then .unmodelled
+            else if !validUtf8 line then .unmodelled
             else match foldLine (line.length + 1) line (lim - 2) (h.name.length + 2) with
               | some folded => .ok (out ++ folded)
               | none => .couldNotBeFolded
@@ -78,7 +80,7 @@ theorem foldl_fits (lim : Nat) (hs : List Header) (out : Bytes)
         | GenRes.ok out =>
           let line := h.name ++ [COLON, SP] ++ h.value
           if line.length ≤ lim - 2 then GenRes.ok (out ++ line ++ CRLF)
-          else if !isAsciiBytes line then GenRes.unmodelled
+          else if !validUtf8 line then GenRes.unmodelled
           else match foldLine (line.length + 1) line (lim - 2) (h.name.length + 2) with
             | some folded => GenRes.ok (out ++ folded)
             | none => GenRes.couldNotBeFolded
